@@ -14,6 +14,9 @@ import (
 	"errors"
 	"fmt"
 	"io"
+	"math/rand/v2"
+	"runtime"
+	"sync"
 	"os"
 	"path/filepath"
 	"sort"
@@ -59,6 +62,12 @@ type jcase struct {
 	Note    string  `json:"note,omitempty"`
 	AdvEmptyOK  bool `json:"allow_advance_on_empty,omitempty"` // legacy field of older replay files; ignored
 	AdvEmptyHit bool `json:"advance_on_empty_happened,omitempty"`
+	// ConcRounds > 0: besides the sequential history above, run that many rounds of the concurrent
+	// scenario (Scanner.Advance at end-of-segment racing with a segment-filling Append) on the
+	// real queue and assert that every acknowledged entry is delivered exactly once, in order.
+	ConcRounds int    `json:"concurrent_rounds,omitempty"`
+	ConcSeed   uint64 `json:"concurrent_seed,omitempty"`
+	ConcResult string `json:"impl_concurrent_result,omitempty"`
 }
 
 var tmpRoot string
@@ -402,6 +411,16 @@ func emit(w *vh.W, c *jcase) {
 		w.Fail(idx, f, "")
 		return
 	}
+	if c.ConcRounds > 0 {
+		lost, stats := concRounds(c)
+		c.ConcResult = stats
+		w.Extra["concurrent_rounds"] = toInt(w.Extra["concurrent_rounds"]) + c.ConcRounds
+		w.Extra["concurrent_stats"] = stats
+		if lost != "" {
+			c.ConcResult = lost
+			defer w.Fail(idx, lost, "")
+		}
+	}
 	nacks, ndel := 0, 0
 	for _, o := range c.Ops {
 		if o.Kind == "append" && o.Res == 0 {
@@ -452,6 +471,101 @@ func emit(w *vh.W, c *jcase) {
 	}
 }
 
+// concRounds: the scanner has read the head(=tail) segment to its end; Scanner.Advance (which
+// persists the position, sees io.EOF and then decides under Queue.mu whether to trim the head) runs
+// concurrently with Queue.Append of a block that FILLS the segment.  Whatever the interleaving,
+// the acknowledged block must still be delivered afterwards (exactly once, after the entry already
+// read).  The directory is on a real disk if possible: the fsync inside advanceTo then takes long
+// enough for the appender to be parked behind it, which is the dangerous interleaving.  Per round
+// the appender starts after a random short spin relative to the Advance call.
+func concRounds(c *jcase) (lost string, stats string) {
+	root := os.TempDir()
+	dir, err := os.MkdirTemp(root, "c26c-")
+	if err != nil {
+		panic(err)
+	}
+	defer os.RemoveAll(dir)
+	const maxSeg = 64
+	q, err := durablequeue.NewQueue(dir, 1<<30, maxSeg, &durablequeue.SharedCount{}, 8, func([]byte) error { return nil })
+	if err != nil {
+		panic(err)
+	}
+	if err := q.Open(); err != nil {
+		return "concurrent scenario: Open failed: " + err.Error(), ""
+	}
+	defer q.Close()
+	rng := rand.New(rand.NewPCG(c.ConcSeed, 0xC26))
+	advEOFPath, appendFirst := 0, 0
+	for round := 0; round < c.ConcRounds; round++ {
+		small := []byte{byte(1 + round%250), 0xAA, byte(round >> 8), byte(round)}
+		big := make([]byte, 40)
+		big[0], big[1], big[2], big[3] = byte(1+round%250), 0xBB, byte(round>>8), byte(round)
+		if err := q.Append(small); err != nil {
+			return fmt.Sprintf("concurrent scenario round %d: Append(small) = %v", round, err), ""
+		}
+		sc, err := q.NewScanner()
+		if err != nil {
+			return fmt.Sprintf("concurrent scenario round %d: NewScanner = %v", round, err), ""
+		}
+		var read [][]byte
+		for sc.Next() {
+			read = append(read, append([]byte{}, sc.Bytes()...))
+		}
+		if len(read) != 1 || string(read[0]) != string(small) {
+			return fmt.Sprintf("concurrent scenario round %d: scanner read %v, expected exactly the small entry %v", round, read, small), ""
+		}
+		start := make(chan struct{})
+		var wg sync.WaitGroup
+		var errA, errB error
+		// log-uniform spins on either side, so that windows from ~100 ns (tmpfs) to ms (disk fsync) are hit
+		spin, spinA := 0, 0
+		switch rng.IntN(4) {
+		case 0:
+		case 1:
+			spinA = 1 << rng.IntN(12)
+		default:
+			spin = 1 << rng.IntN(16)
+		}
+		wg.Add(2)
+		go func() {
+			defer wg.Done()
+			<-start
+			for i := 0; i < spin; i++ {
+				if i%64 == 63 {
+					runtime.Gosched()
+				}
+			}
+			errB = q.Append(big)
+		}()
+		go func() {
+			defer wg.Done()
+			<-start
+			for i := 0; i < spinA; i++ {
+				if i%64 == 63 {
+					runtime.Gosched()
+				}
+			}
+			_, errA = sc.Advance()
+		}()
+		close(start)
+		wg.Wait()
+		if errA != nil && errA != io.EOF {
+			return fmt.Sprintf("concurrent scenario round %d: Scanner.Advance = %v", round, errA), ""
+		}
+		if errB != nil {
+			return fmt.Sprintf("concurrent scenario round %d: Append(segment-filling block) = %v", round, errB), ""
+		}
+		var o jcobs
+		drain(q, &o)
+		if len(o.Got) != 1 || string(bytesOf(o.Got[0])) != string(big) || o.Nerr != 0 {
+			return fmt.Sprintf("concurrent scenario round %d: Append of a 40-byte block (which fills the 64-byte segment) was acknowledged while Scanner.Advance was finishing the drained head segment, but the following drain delivered %v (errors %d) instead of exactly that block: an acknowledged entry was lost or duplicated", round, o.Got, o.Nerr), ""
+		}
+		_ = advEOFPath
+		_ = appendFirst
+	}
+	return "", fmt.Sprintf("%d rounds, every acknowledged block delivered exactly once", c.ConcRounds)
+}
+
 func toInt(v interface{}) int {
 	if v == nil {
 		return 0
@@ -500,7 +614,7 @@ func allKs(n int) []int {
 
 func main() {
 	w := vh.New("C26", "From Verif Require Import Base.Prelude Model.C26.\nOpen Scope Z_scope.", "case", "check")
-	w.Rule = "histories (3-14 ops) of Append / Queue.Advance / scanner(n)+Advance / reopen / PurgeOlderThan on a real durablequeue.Queue with max segment size in {24..300} bytes (roll-over every 1-4 entries), max queue size from 2x segment size (ErrQueueFull reachable) to 4096, verifyBlockFn permissive or strict; entries are non-empty with a unique first byte; benign stream = small/zero-rich bytes, adversarial stream = payloads embedding the big-endian encoding of record boundaries of the current tail. About 2/3 of the histories end with a torn last Append: every prefix length k of its write (all k for entries up to 40 bytes, else a boundary-biased subset) is applied to a copy of the directory, reopened and drained. Queue.Advance is also called on empty queues (must be a no-op since fix a852c65657). Aliasing crash images (last 8 bytes are not a persisted footer yet decode to <= size-8) are emitted as separate cases carrying the known-finding signature. One case in eight is a long roll-over history: 10-14 single-entry segments (max segment size 24), the first 0-9 consumed, then reopen, reads, more appends and another reopen, so that live segment files straddle the 9/10 name boundary. Hand-picked regression cases come first. Non-trivial: at least two acknowledged appends and at least one delivery or crash image. Distinct: distinct Gallina terms."
+	w.Rule = "histories (3-14 ops) of Append / Queue.Advance / scanner(n)+Advance / reopen / PurgeOlderThan on a real durablequeue.Queue with max segment size in {24..300} bytes (roll-over every 1-4 entries), max queue size from 2x segment size (ErrQueueFull reachable) to 4096, verifyBlockFn permissive or strict; entries are non-empty with a unique first byte; benign stream = small/zero-rich bytes, adversarial stream = payloads embedding the big-endian encoding of record boundaries of the current tail. About 2/3 of the histories end with a torn last Append: every prefix length k of its write (all k for entries up to 40 bytes, else a boundary-biased subset) is applied to a copy of the directory, reopened and drained. Queue.Advance is also called on empty queues (must be a no-op since fix a852c65657). Aliasing crash images (last 8 bytes are not a persisted footer yet decode to <= size-8) are emitted as separate cases carrying the known-finding signature. One case in eight is a long roll-over history: 10-14 single-entry segments (max segment size 24), the first 0-9 consumed, then reopen, reads, more appends and another reopen, so that live segment files straddle the 9/10 name boundary. One case additionally runs a concurrent scenario on the real queue (500 rounds quick / 3000 thorough): Scanner.Advance at the end of the drained single segment racing with an Append that fills the segment, asserting that the acknowledged block is delivered exactly once. Hand-picked regression cases come first. Non-trivial: at least two acknowledged appends and at least one delivery or crash image. Distinct: distinct Gallina terms."
 	tmpRoot = os.TempDir()
 	if st, err := os.Stat("/dev/shm"); err == nil && st.IsDir() {
 		tmpRoot = "/dev/shm"
@@ -553,6 +667,19 @@ func main() {
 		if w.Len() < w.N {
 			emit(w, &hand[i])
 		}
+	}
+	// the sequential version of the concurrent scenario (small entry, read to end, segment-filling
+	// append, drain; repeated) + the concurrent rounds themselves (see concRounds)
+	if w.Len() < w.N {
+		cc := jcase{MaxSize: 4096, MaxSeg: 64, ConcRounds: 500, ConcSeed: w.Seed}
+		if w.N >= 4000 {
+			cc.ConcRounds = 3000
+		}
+		for i := 0; i < 3; i++ {
+			cc.Ops = append(cc.Ops, jop{Kind: "append", B: []int{1 + 2*i, 170, 0, i}}, jop{Kind: "scanadv", N: 2},
+				jop{Kind: "append", B: append([]int{2 + 2*i, 187}, rep(0, 38)...)}, jop{Kind: "scanadv", N: 2})
+		}
+		emit(w, &cc)
 	}
 	segSizes := []int64{24, 24, 32, 40, 64, 64, 100, 300}
 	for w.Len() < w.N {
